@@ -197,6 +197,35 @@ claim("C03",
       "model/implementation correspondence + re-layout / re-width oracle",
       "DESIGN.md §7 C03")
 
+claim("C17",
+      "Lean theorems on a model of FileResolver (trees with link flags, arguments file/dir/glob, pattern matchers as "
+      "parameters), for every tree, matcher, setting and argument list: EXACT (a path is listed by traversal iff it is a "
+      "regular file passing include/size/ignore filters reached through non-link, non-excluded directories — a "
+      "specification that uses only membership in the directory listings), SOUND, NO_LINKS, PRUNED, LISTING_ORDER, "
+      "EXPLICIT, GLOB_FILTERED, MEMBERS, SORTED, NODUP (strictly increasing in Path order) and ARG_ORDER (the result is a "
+      "function of the set of arguments). Model tied to FileResolver.resolve by equality of results on generated trees "
+      "(links, ignore files, settings, argument mixes; pathspec's answers supplied as tables). End-to-end: independent "
+      "reference walk with must/may sets, result shape, shuffled arguments, shuffled directory listings, --list-files.",
+      COMMON_NOTE + "What a pattern matches (pathspec) and what a glob expands to (pathlib) are parameters. Four defects were "
+      "repaired in flowmark (glob results bypassed the filters, linked files were listed, ignore/exclude patterns matched "
+      "bare names only).",
+      "Lean 4 proof (traversal = membership-only specification by mutual structural induction; sorted-set algebra) + "
+      "model/implementation correspondence + independent reference walk",
+      "DESIGN.md §7 C17")
+claim("C18",
+      "Lean theorems on the resolver model: AGREES (with only gitignore at work, traversal lists exactly the regular files "
+      "that git's rule does not ignore — each .gitignore sees the path relative to its own directory, the last matching "
+      "pattern along the chain from the traversal root decides, nothing below an ignored directory is listed — for every "
+      "tree and every per-file pattern matcher), LAST_MATCH, OFF (with respect_gitignore off no .gitignore influences the "
+      "result). Model tied to the real resolver on trees with .gitignore files at every level. The matcher's meaning is "
+      "checked against git itself: FileResolver vs `git ls-files -co --exclude-standard` in a fresh repository at the "
+      "traversal root (and at sub-directory roots), and every file listed with --no-respect-gitignore.",
+      COMMON_NOTE + "pathspec's reading of a single pattern is a parameter; two pattern shapes on which it differs from git are a "
+      "recorded third-party finding. The basename/any() defect was repaired in flowmark.",
+      "Lean 4 proof (refinement of git's last-match rule by induction over the tree) + model/implementation correspondence + "
+      "differential oracle against git",
+      "DESIGN.md §7 C18")
+
 NOT_YET = {
 }
 
